@@ -449,8 +449,10 @@ class Tokenizer(object):
 # HACK: I couldn't get the parse() thing to work so I'm just not
 #       going to parse whitespace after EscapeSequences that end in
 #       non-letter characters as a half-assed solution.
-                        if token[-1] in encoding.stringletters():
-                            # Absorb following whitespace
+                        if next_code == CC_LETTER:
+                            # A control word (its name is made of characters
+                            # that are letters under the current category
+                            # codes) absorbs following whitespace
                             self.state = STATE_S
 
                     break
